@@ -150,6 +150,11 @@ where
             let b = range.end;
 
             let mut x_temp = *x;
+            // Reflections repeat with a period of twice the domain width, which removes
+            // far-out values in one step (and terminates where the loop alone would not).
+            if x_temp < a || x_temp > b {
+                x_temp = a + (x_temp - a).rem_euclid(2. * (b - a));
+            }
             while x_temp < a || x_temp > b {
                 x_temp = match x_temp {
                     v if v < a => a + (a - v),
